@@ -1,5 +1,6 @@
 """Parse Go race detector logs: one record per report with the two access stacks."""
 import glob
+import os
 import re
 
 
@@ -27,7 +28,8 @@ def parse(paths):
     return reps
 
 
-def lib_frame(frames, repo="/repo/"):
+def lib_frame(frames, repo=None):
+    repo = repo or (os.environ.get("VERIF_REPO", "/repo").rstrip("/") + "/")
     """innermost frame that is library code"""
     for fn, loc in frames:
         if loc.startswith(repo):
@@ -35,12 +37,14 @@ def lib_frame(frames, repo="/repo/"):
     return None
 
 
-def classify(rep, repo="/repo/"):
+def classify(rep, repo=None):
+    repo = repo or (os.environ.get("VERIF_REPO", "/repo").rstrip("/") + "/")
+    root = os.path.dirname(os.path.dirname(os.path.abspath(__file__))) + "/"
     """-> (kind, key): kind 'library' when both accesses are made by library code (innermost frame inside the
     repository, or a callee that the library called without harness code in between)"""
     def side(acc):
         for fn, loc in acc["frames"]:
-            if loc.startswith("/verif/"):
+            if loc.startswith(root):
                 return "harness", fn
             if loc.startswith(repo):
                 return "library", fn
